@@ -235,6 +235,10 @@ class Ctx:
                 hwm, total = int(m.group(1)), int(m.group(2))
         viols = self._vf_value(r.out, "VF_VIOL")
         drift = self._vf_value(r.out, "VF_DRIFT")
+        if hwm is None and "Invariant NotDone is violated" in r.out:
+            # search-based trace specs stop at the first complete explanation of the trace
+            n = sum(1 for _ in open(trace_path))
+            hwm, total = n, n
         if hwm is None:
             sys.stdout.write(r.out[-6000:])
             raise Inconclusive("trace validation %s produced no VF_HWM line" % module)
